@@ -93,7 +93,13 @@ func runLspHistory(texts []string, hist []lspReq) (obs []string, short []string,
 			latest[rq.URI] = rq.Tid
 		case "change":
 			req.Method = "textDocument/didChange"
-			req.Params = rawParams(map[string]any{"textDocument": map[string]any{"uri": rq.URI, "version": 2}, "contentChanges": []any{map[string]any{"text": texts[rq.Tid]}}})
+			// full-document sync: a notification may carry several changes, the last one is the document
+			changes := []any{}
+			for k := 0; k < (rq.Tid+len(rq.URI)+len(hist))%3; k++ {
+				changes = append(changes, map[string]any{"text": texts[(rq.Tid+1+k)%len(texts)]})
+			}
+			changes = append(changes, map[string]any{"text": texts[rq.Tid]})
+			req.Params = rawParams(map[string]any{"textDocument": map[string]any{"uri": rq.URI, "version": 2}, "contentChanges": changes})
 			latest[rq.URI] = rq.Tid
 		case "hover":
 			req.Method = "textDocument/hover"
